@@ -17,10 +17,12 @@ import json
 # Bring in version handling
 from .version import Version, LATEST_VER
 
-# Trailing newline sanitation
-TRAILING_NL_RE = re.compile(r'\n+$')
+# Trailing newline sanitation: any run of line ends (LF or CRLF) at the end
+# of the text, including none at all
+TRAILING_NL_RE = re.compile(r'(?:\r?\n)*\Z')
 
-GRID_SEP = re.compile(r'(?<=\n)\n+')
+# Grids are separated by one or more blank lines (LF or CRLF)
+GRID_SEP = re.compile(r'(?<=\n)(?:\r?\n)+')
 
 MODE_ZINC = 'text/zinc'
 MODE_JSON = 'application/json'
@@ -73,7 +75,11 @@ def parse(grid_str, mode=MODE_ZINC, charset='utf-8', single=True):
         if isinstance(grid_data, dict):
             grid_data = [grid_data]
     else:
-        grid_data = GRID_SEP.split(TRAILING_NL_RE.sub('\n', grid_str))
+        # Every grid ends with exactly one newline; an empty document holds
+        # no grid at all.
+        grid_str = TRAILING_NL_RE.sub('\n', grid_str, count=1)
+        grid_data = [g for g in GRID_SEP.split(grid_str)
+                     if g.strip('\r\n') != '']
 
     grids = list(map(_parse, grid_data))
     if single:
